@@ -4,6 +4,7 @@ receive; the checker matches by id: identical payload, right origin, right clien
 replying origin's address, multiplicity <= 1, nothing unmatched (e.g. an empty datagram born from a receive error).
 Loss counts only in stop-and-wait mode (one datagram in flight per session)."""
 import asyncio
+import os
 import random
 import socket
 import struct
@@ -456,7 +457,7 @@ async def main(args):
         # ---------------- many sessions writing multi-fragment datagrams at the same instant over one QUIC connection (no loss on
         # this path): whatever the proxy shares between the sessions of a connection (fragment ids!) is hit from several threads
         storm = []
-        for k in range(8):
+        for k in range(12):
             sess_id += 1
             s = Session(["socks", "rev"][k % 2], "q", client_id + 90 + k, sess_id)
             try:
@@ -469,28 +470,37 @@ async def main(args):
             seq, _ = s.send(args.seed, origins[0], 100)
             await s.wait_reply(seq, 2.0)
         storm_lost = []
-
-        async def storm_one(s):
-            n = 400 if args.thorough else 150
-            window = []
-            for i in range(n):
+        # rounds: one datagram from every session back to back (so that their relay tasks wake up on different worker threads at the
+        # same instant), at most two rounds in flight
+        n_rounds = 1000 if args.thorough else 300
+        # CPU contention on purpose: with every core busy the proxy's worker threads get preempted in the middle of whatever
+        # they do, which stretches the windows of unsynchronised read-modify-write sequences from nanoseconds to milliseconds
+        import subprocess
+        import sys
+        burners = [subprocess.Popen([sys.executable, "-c", "while True: pass"]) for _ in range(os.cpu_count() or 4)]
+        prev = []
+        for rnd in range(n_rounds):
+            cur = []
+            for s in storm:
                 out.case()
-                seq, _ = s.send(args.seed, origins[0], rng.choice([2400, 3000, 3400]))
-                window.append(seq)
-                if len(window) >= 2:
-                    q = window.pop(0)
-                    if await s.wait_reply(q, 2.5, grace=0) is None:
-                        storm_lost.append((s.lk, s.session, q))
-            for q in window:
+                cur.append((s, s.send(args.seed, origins[0], rng.choice([2400, 3000, 3400]))[0]))
+            for (s, q) in prev:
                 if await s.wait_reply(q, 2.5, grace=0) is None:
                     storm_lost.append((s.lk, s.session, q))
-        await asyncio.gather(*[storm_one(s) for s in storm])
+            prev = cur
+        for b in burners:
+            b.kill()
+        for b in burners:
+            b.wait()
+        for (s, q) in prev:
+            if await s.wait_reply(q, 2.5, grace=0) is None:
+                storm_lost.append((s.lk, s.session, q))
         if storm_lost:
             # one common grace period for everything that is merely late
             await asyncio.sleep(5.0)
             still = [(lk, sid, q) for (lk, sid, q) in storm_lost if not any(parse_payload(d[1:]) and parse_payload(d[1:])[3] == q for s in storm if s.session == sid for (_, _, d) in s.rx if d[:1] == b"R")]
             if still:
-                out.violation("datagram lost without network loss (many sessions sending multi-fragment datagrams at once): %s via q" % still[0][0], {"lost": len(still), "of": len(storm) * (400 if args.thorough else 150)})
+                out.violation("datagram lost without network loss (many sessions sending multi-fragment datagrams at once): %s via q" % still[0][0], {"lost": len(still), "of": len(storm) * (1000 if args.thorough else 300)})
         out.nontrivial(("q", "concurrent-multi-fragment", len(storm)))
         # ---------------- small bursts: 24 x 64-byte datagrams back to back on one session at a time. The whole burst is a few
         # kilobytes, far below every socket buffer on the way, so no hop can lose any of it for lack of buffer space
